@@ -115,6 +115,12 @@ check("C15", "exploration",
       "The generator never produces what the statement excludes (path tags elsewhere, repeated or void append/prepend targets).",
       "DESIGN.md 4 (C15)", "E4 product enumerator")
 
+check("C07", "fault_enumeration",
+      "deviation-bounded exhaustive fault enumeration over a baseline bundle driving the whole public pipeline, in worker subprocesses on a 2 MiB-stack thread",
+      "A baseline bundle (router config, a rule with every optional block, a partner rule closing a redirect chain, request, response head and body, example, analysis parameters) drives ~60 public entry points in proxy order: deserialisation, Router insert/cache, request construction and rebuild, match/trace/get_trace, Action building, status/header/body filtering with 3 chunkings, logging, JSON round trips, and the test-examples / explain / impact / unit-ids analyses in both entry-point families (which run the redirect-loop analysis). A deviation replaces one of ~150 fields by one value of its hostile alphabet (~1000 values: marker regexes, transformer options incl. every (from,to) pair and multi-byte captures, cidr/date/time/weekday strings, URLs, targets without host, status/rank/hops/sampling extremes, selectors, element paths, 17 response bodies incl. 2 MiB text/script/comment, 20000-deep nesting, escaped and double-escaped script data, truncated and valid compressed streams). Quick: all bundles with 0 and 1 deviations; thorough: all pairs. Plus every null/valid pattern of the pointer arguments of all 23 extern C entry points x 3 payload variants (plain, empty, non-UTF-8 / null fields in header lists), including calling the init functions twice. Oracle: no unwind (panic location recorded by a hook), no abort or signal (must reproduce in isolation, with entry tracing), no 20 s stall.",
+      "Release profile only. Inputs that do not deserialise are outside the domain. Coverage = the alphabets x the deviation bound.",
+      "DESIGN.md 3.5, 4 (C07)", "E5 deviation-bounded fault explorer")
+
 ALL = [f"C{n:02d}" for n in range(1, 20)]
 
 NOT_BUILT_REASON = "check not built yet in this round (planned, see DESIGN.md section 0); not claimed until its explorer exists and has been shown to detect a seeded change"
